@@ -76,6 +76,9 @@ class StaticGroup(Group):
         return res
 
 
+DFCC_MIN_UNWIND = int(os.environ.get('VERIF_DFCC_MIN_UNWIND', '6'))
+
+
 def _limits():
     resource.setrlimit(resource.RLIMIT_AS, (MEM_BYTES, MEM_BYTES))
 
@@ -339,7 +342,12 @@ def run_group(g, trace=False, workroot=None):
     elif g.backend:
         cb += ['--' + g.backend]
     if g.unwind:
-        cb += ['--unwind', str(g.unwind)]
+        u = g.unwind
+        if g.enforce or g.replace or g.loops:
+            # the DFCC instrumentation library has loops of its own (over write-set slots) that carry no unwinding assertion: a bound that
+            # fits the program's own enumerated loops can silently cut them (seen at --unwind 3: harness end unreachable).  Never go below 6.
+            u = max(u, DFCC_MIN_UNWIND)
+        cb += ['--unwind', str(u)]
     if trace:
         cb += ['--trace', '--json-ui']     # counterexample wanted: JSON with traces (only in the re-run after a failure)
     cb += [binary]
